@@ -17,7 +17,7 @@
     187, 261-291  read-out                      `getSolution`
     148/150  ZeroDivisionError (Numba python error model, `d[i] == 0`)   `divByZero`, `lcpLemkeE`
   parameters: `tolPiv`, `tolDiff` (= piv_options.tol_piv / tol_ratio_diff), `maxIter`.
-  not part of the algorithm: `lemkeTies`/`firstTies`/`lcpTies` (degeneracy counters used by the
+  not part of the algorithm: `lemkeTies`/`firstTies`/`lcpTies`, `nearScan`/`lemkeNear`/`firstNear`/`lcpNear` (degeneracy and near-tie counters used by the
   harness), `firstStepBuggy`/`firstPivotRowBuggy`/`lemkeRunBuggy` (the pre-repair first ratio
   test, kept for the witness theorems).
 -/
@@ -181,6 +181,63 @@ def lcpTies (n : Nat) (Mm : Nat → Nat → α) (q d : Nat → α) (maxIter : Na
     let fp := firstPivot n Mm q d tolDiff
     firstTies n q d tolDiff + lemkeTies n tolPiv tolDiff (maxIter - 1) fp.1 fp.2.1 fp.2.2
 
+/-! ### near-tie counters (driver-side instrumentation, exact reference run only)
+
+  A comparison of the run is *fragile* under rounding when its exact margin is small: two candidate
+  ratios within `tolDiff + eps·max(1,|ratio|,|min|)` of each other (this includes exact ties), or a
+  non-zero pivot-column entry within `eps` of the pivot tolerance. On runs without fragile
+  comparison the floating-point code must follow the exact path; on the others it may not. -/
+
+def absG (x : α) : α := if x < 0 then - x else x
+def maxG (x y : α) : α := if x < y then y else x
+
+/-- fragile comparisons of one no-tie-breaking scan (first pass of a ratio test) -/
+def nearScan (T : M α) (pivotc testc : Nat) (cands : List Nat) (tolPiv tolDiff eps : α) : Nat :=
+  (cands.foldl (fun (acc : MRState α × Nat) i =>
+      let st := acc.1
+      let e := T.get i pivotc
+      let nearPiv : Nat := if !(e == 0) && decide (absG (e - tolPiv) < eps) then 1 else 0
+      let nearRatio : Nat :=
+        if e ≤ tolPiv then 0
+        else
+          let ratio := T.get i testc / e
+          match st.1 with
+          | none => 0
+          | some rmin =>
+            if absG (ratio - rmin) ≤ tolDiff + eps * maxG 1 (maxG (absG ratio) (absG rmin)) then 1 else 0
+      (minRatioStep T pivotc testc tolPiv tolDiff st i, acc.2 + nearPiv + nearRatio))
+    ((none, []), 0)).2
+
+/-- fragile comparisons along the main loop (mirrors the recursion of `lemkeLoop`) -/
+def lemkeNear (n : Nat) (tolPiv tolDiff eps : α) : Nat → M α → (Nat → Nat) → Nat → Nat
+  | 0, _, _, _ => 0
+  | fuel + 1, T, basis, pivcol =>
+    let t := nearScan T pivcol (T.nc - 1) (List.range T.nr) tolPiv tolDiff eps
+    let fr := lexMinRatio T pivcol 0 tolPiv tolDiff
+    if fr.1 = false then t
+    else
+      let pivrow := fr.2
+      let leaving := basis pivrow
+      if leaving = 2 * n then t
+      else t + lemkeNear n tolPiv tolDiff eps fuel (pivot T pivcol pivrow) (setBasis basis pivrow pivcol)
+                (complement n leaving)
+
+/-- fragile comparisons of the first, hand-written ratio test -/
+def firstNear (n : Nat) (q d : Nat → α) (tolDiff eps : α) : Nat :=
+  ((List.range' 1 (n - 1)).foldl (fun (acc : (Nat × α) × Nat) i =>
+      let ratio := q i / d i
+      let rmin := acc.1.2
+      let nr : Nat :=
+        if absG (ratio - rmin) ≤ tolDiff + eps * maxG 1 (maxG (absG ratio) (absG rmin)) then 1 else 0
+      (firstStep q d tolDiff acc.1 i, acc.2 + nr))
+    ((0, q 0 / d 0), 0)).2
+
+def lcpNear (n : Nat) (Mm : Nat → Nat → α) (q d : Nat → α) (maxIter : Nat) (tolPiv tolDiff eps : α) : Nat :=
+  if trivialExit n q then 0
+  else
+    let fp := firstPivot n Mm q d tolDiff
+    firstNear n q d tolDiff eps + lemkeNear n tolPiv tolDiff eps (maxIter - 1) fp.1 fp.2.1 fp.2.2
+
 /-! ### line protocol -/
 
 def showResult (sh : α → String) (n : Nat) (r : LCPResult α) : String :=
@@ -211,7 +268,9 @@ def handle (toks : List String) : String :=
         match lcpLemkeE n (fnOfMat Mm) (fnOfList q) (fnOfList d) mi tp td with
         | none => "ERR:ZeroDivisionError"
         | some res => showResult showRat n res ++
-            " ties=" ++ toString (lcpTies n (fnOfMat Mm) (fnOfList q) (fnOfList d) mi tp td)
+            " ties=" ++ toString (lcpTies n (fnOfMat Mm) (fnOfList q) (fnOfList d) mi tp td) ++
+            " near=" ++ toString (lcpNear n (fnOfMat Mm) (fnOfList q) (fnOfList d) mi tp td
+              ((kvRat r "eps").getD (1 / 1000000000)))
       else "bad-op"
     | _, _, _, _, _, _, _ => "bad-op"
   | "lemkef" :: r =>
